@@ -53,10 +53,16 @@ def h_call_expression(eng):
     expr = mk_logging_ctx(w, "expr_ast_ctx")
     result = SV(z3.Const("expr_value", ObjS))
 
+    # any Exception class, the builtin TimeoutError (= asyncio.TimeoutError) and KeyError included (round-4 seed C18-6 made the
+    # new subsystem let TimeoutError through; the legacy copy gets the same quantifier)
+    classes = ["UserException", "TimeoutError", "KeyError"]
+    raised_cls = [None]
+
     def ev(i, info):
         def th():
             if eng.choose(2, "expr-raises") == 0:
-                raise exc("UserException", "bad expression")
+                raised_cls[0] = classes[eng.choose(len(classes), "exception-class")]
+                raise exc(raised_cls[0], "bad expression")
             return result
         return Coro(th, "expr.eval")
     expr._fields["eval"] = ev
